@@ -55,6 +55,8 @@ def _refusal_ok(start: int, n: int) -> bool:
 def run_case(case) -> Outcome:
     from a816.writers import IPSWriter
 
+    from vlib import watchdog
+
     copier = bool(case["copier"])
     shift = 0x200 if copier else 0
     f = io.BytesIO()
@@ -83,11 +85,15 @@ def run_case(case) -> Outcome:
         if n == 0:
             labels.append("empty-block")
         pos_before = f.tell()
-        try:
-            w.write_block(data, addr)
-        except Exception as e:
+        # a writer that never comes back has not written the file: a deterministic budget (line events inside the writer; a block
+        # needs a few dozen) instead of the runner's wall-clock backstop, which would only call the case inconclusive
+        st_, val = watchdog.Watchdog(50_000, cpu_seconds=20.0).run(w.write_block, data, addr)
+        if st_ == "budget":
+            return Outcome(labels=labels, nontrivial=True).bad(
+                "writer-does-not-terminate", case, f"write_block(len={n}, addr={addr:#x}, copier={copier}) did not return within 50 000 line events ({val}); {f.tell() - pos_before} bytes written meanwhile")
+        if st_ == "exception":
             if _refusal_ok(start, n):
-                refused = f"{type(e).__name__}"
+                refused = str(val).split(":")[0]
                 labels.append("refused-unrepresentable")
                 # the history stops here; what was written before the refused block is still checked
                 f.seek(pos_before)
@@ -95,7 +101,7 @@ def run_case(case) -> Outcome:
                 break
             return Outcome(labels=labels, nontrivial=nontrivial).bad(
                 "refused-representable", case,
-                f"write_block(len={n}, addr={addr:#x}, copier={copier}) raised {type(e).__name__}: {e} although the write is representable")
+                f"write_block(len={n}, addr={addr:#x}, copier={copier}) raised {val} although the write is representable")
         expected.append((start, data))
     if nwrites >= 3:
         nontrivial = True
